@@ -25,6 +25,10 @@ from . import env, subcorr
 
 HEADER = ('Require Import Cirbo.Model.Base Cirbo.Model.Gate Cirbo.Model.Circuit Cirbo.Model.Connect '
           'Cirbo.Model.History Cirbo.Model.PatCases.')
+RUN_HEADER = HEADER + '\nRequire Import Cirbo.Model.SubcircuitRun.'
+# whole-run validation: runs above these sizes are not printed as Coq terms (counted as skipped)
+MAX_RUN_EVENTS = 40
+MAX_RUN_GATES = 60
 
 SUPPORTED = subcorr.SUPPORTED
 OTHER_TYPES = [t for t in ct.GTYPES if t not in SUPPORTED]
@@ -256,8 +260,20 @@ class Recorder:
     def __init__(self):
         self.steps = []
         self.merges = []        # steps of the all-outputs-trivial branch (output merged into a leaf)
+        self.events = []        # ('replace', step) / ('merge', step): the same records, in the order they happened
         self.current = None     # the _Subcircuit whose truth table was last requested
         self.pending = None     # state before the merge that is in progress
+        self.last_replace = None    # the last replace_subcircuit record that returned normally
+        self.arg = None         # dump of the argument circuit at the entry of minimize_subcircuits
+        self.ret = None         # dump of the returned circuit (None: the call raised)
+        self.ret_is_arg = None  # was the returned object the argument object (edited in place)
+        self.calls = 0          # number of (outermost) minimize_subcircuits calls recorded
+
+    def effective_events(self):
+        """the events that changed the circuit minimize_subcircuits goes on with: replace_subcircuit calls
+        that returned normally and whose result was kept, and merges whose remove_gate returned"""
+        return [(kind, st) for kind, st in self.events
+                if st['result'][0] == 'ok' and not st.get('discarded')]
 
 
 @contextlib.contextmanager
@@ -269,6 +285,32 @@ def recording():
     orig_tt = sc._Subcircuit.evaluate_truth_table_with_dont_cares
     orig_users = Circuit.get_gate_users
     orig_remove = Circuit.remove_gate
+    orig_minimize = sc.minimize_subcircuits
+    orig_no_cycles = sc.check_circuit_has_no_cycles
+
+    # The argument circuit is dumped at the entry of minimize_subcircuits: the function edits the object it
+    # is given (the trivial-branch merges happen in place), so this is the state the first event must start
+    # from; the returned circuit is dumped when the call returns.  harness/subcorr.run_minimize imports the
+    # function from the module at every call, so it gets this wrapper while the recording is active.
+    def recorded_entry(circuit, *args, **kwargs):
+        rec.calls += 1
+        if rec.calls > 1:
+            return orig_minimize(circuit, *args, **kwargs)
+        rec.arg = ct.dump_circuit(circuit)
+        out = orig_minimize(circuit, *args, **kwargs)
+        rec.ret = ct.dump_circuit(out)
+        rec.ret_is_arg = out is circuit
+        return out
+
+    # minimize_subcircuits re-checks the replaced copy for cycles and drops it when the check raises: such a
+    # recorded step did not change the circuit the function goes on with
+    def no_cycles(circuit, *args, **kwargs):
+        try:
+            return orig_no_cycles(circuit, *args, **kwargs)
+        except Exception:  # noqa: BLE001
+            if sys._getframe(1).f_code.co_name == 'minimize_subcircuits' and rec.last_replace is not None:
+                rec.last_replace['discarded'] = True
+            raise
 
     # The all-outputs-trivial branch rewires the users of `output` to the leaf `new_output` by hand
     # and then calls circuit.remove_gate(output).  Its first action on the circuit is
@@ -297,9 +339,11 @@ def recording():
         except Exception as e:  # noqa: BLE001
             step['result'] = ('err', ct.err_name(e))
             rec.merges.append(step)
+            rec.events.append(('merge', step))
             raise
         step['result'] = ('ok', ct.dump_circuit(self))
         rec.merges.append(step)
+        rec.events.append(('merge', step))
         return out
 
     def replace_subcircuit(self, subcircuit, inputs_mapping, outputs_mapping):
@@ -311,9 +355,12 @@ def recording():
         except Exception as e:  # noqa: BLE001
             step['result'] = ('err', ct.err_name(e))
             rec.steps.append(step)
+            rec.events.append(('replace', step))
             raise
         step['result'] = ('ok', ct.dump_circuit(self))
         rec.steps.append(step)
+        rec.events.append(('replace', step))
+        rec.last_replace = step
         return out
 
     def evaluate_truth_table_with_dont_cares(self):
@@ -325,9 +372,13 @@ def recording():
     Circuit.get_gate_users = get_gate_users
     Circuit.remove_gate = remove_gate
     sc._Subcircuit.evaluate_truth_table_with_dont_cares = evaluate_truth_table_with_dont_cares
+    sc.minimize_subcircuits = recorded_entry
+    sc.check_circuit_has_no_cycles = no_cycles
     try:
         yield rec
     finally:
+        sc.minimize_subcircuits = orig_minimize
+        sc.check_circuit_has_no_cycles = orig_no_cycles
         Circuit.replace_subcircuit = orig_replace
         Circuit.get_gate_users = orig_users
         Circuit.remove_gate = orig_remove
@@ -420,3 +471,105 @@ def validate_merges(prop_id, r, runs, model_ok):
         rejected = [(i, st, 'merge rejected on the care set') for j, (i, st) in enumerate(retry) if j in bad_care]
     r.count('trivial-branch validation', 'rejected', len(rejected))
     return rejected
+
+
+# ---------------------------------------------------------------- (iii) whole runs, end to end
+def _care(care):
+    return 'None' if care is None else f'(Some {vecs(str_vec(s) for s in care)})'
+
+
+def step_care(st):
+    """the care set recorded for a replace_subcircuit step (None when it does not belong to the step's cut)"""
+    cone = st.get('cone')
+    if cone is not None and cone['inputs'] == [a for a, _ in st['imap']]:
+        return cone['care']
+    return None
+
+
+def event_term(kind, st, use_care):
+    if kind == 'replace':
+        return 'EvReplace ' + val_term(st, step_care(st) if use_care else None)
+    return 'EvMerge ' + merge_term(st, st['care'] if use_care else None)
+
+
+def run_term(run, use_care):
+    """(argument circuit, events in order, returned circuit) : SubcircuitRun.run_case"""
+    evs = ct.lst(event_term(kind, st, use_care) for kind, st in run['events'])
+    return f'({ct.circuit(run["arg"])}, {evs}, {ct.circuit(run["ret"])})'
+
+
+def run_record(case, rec, res):
+    """what validate_runs needs of one recorded run (rec: the Recorder, res: result of subcorr.run_minimize)"""
+    return {'case': case, 'returned': res[0] == 'ok', 'arg': rec.arg, 'ret': rec.ret,
+            'result_dump': res[1] if res[0] == 'ok' else None, 'events': rec.effective_events(),
+            'ret_is_arg': rec.ret_is_arg, 'calls': rec.calls,
+            'dropped': sum(1 for _, st in rec.events if st['result'][0] != 'ok' or st.get('discarded'))}
+
+
+def _run_size(run):
+    states = [run['arg'], run['ret']]
+    for _, st in run['events']:
+        states += [st['before'], st['result'][1]]
+    return max(len(d['gates']) for d in states)
+
+
+def validate_runs(prop_id, r, runs, model_ok):
+    """runs: list of run_record(...).  Every run that returned normally is printed as a Coq term and the proved
+    validator SubcircuitRun.check_run (through check_run_case) is evaluated on it: the states chain from the
+    argument circuit to the returned circuit and every event is accepted.  Returns
+    (number of runs accepted, [(run index, why)] for the rejected runs)."""
+    returned = [(i, run) for i, run in enumerate(runs) if run['returned']]
+    r.count('whole runs', 'returned normally', len(returned))
+    todo, rejected = [], []
+    for i, run in returned:
+        if run['arg'] is None or run['ret'] is None or run['calls'] != 1:
+            rejected.append((i, 'the entry / return of minimize_subcircuits was not recorded'))
+            continue
+        if run['ret'] != run['result_dump']:
+            rejected.append((i, 'the circuit recorded at the return differs from the circuit the caller received'))
+            continue
+        if len(run['events']) > MAX_RUN_EVENTS:
+            r.count('whole runs', f'skipped: more than {MAX_RUN_EVENTS} events')
+            continue
+        if _run_size(run) > MAX_RUN_GATES:
+            r.count('whole runs', f'skipped: a state above {MAX_RUN_GATES} gates')
+            continue
+        if any(kind == 'replace' and not (all(a == b for a, b in st['imap']) and all(a == b for a, b in st['omap']))
+               for kind, st in run['events']):
+            r.count('whole runs', 'skipped: a step with a non-identity label mapping')
+            continue
+        todo.append((i, run))
+        r.count('events per run (validated end to end)', len(run['events']))
+        r.count('dropped steps per run (raised or discarded, not part of the chain)', run['dropped'])
+        r.count('returned object', 'the argument object, edited in place' if run['ret_is_arg'] else 'a new object')
+    accepted = 0
+    if not model_ok or not todo:
+        r.count('whole runs', 'rejected', len(rejected))
+        return accepted, rejected
+    bad_all = coqrun.run_cases(prop_id, 'runall', RUN_HEADER, [run_term(run, False) for _, run in todo],
+                               'check_run_case', 'run_case')
+    r.count('whole runs', 'accepted by check_run, every event on all 2^k leaf vectors', len(todo) - len(bad_all))
+    accepted += len(todo) - len(bad_all)
+    retry = [todo[j] for j in bad_all]
+    still = []
+    if retry:
+        bad_care = set(coqrun.run_cases(prop_id, 'runcare', RUN_HEADER, [run_term(run, True) for _, run in retry],
+                                        'check_run_case', 'run_case'))
+        r.count('whole runs', 'accepted by check_run with the recorded care sets', len(retry) - len(bad_care))
+        accepted += len(retry) - len(bad_care)
+        still = [retry[j] for j in sorted(bad_care)]
+    if still:
+        # which part of check_run fails (diagnostics only; the verdict is check_run_case)
+        terms = [run_term(run, True) for _, run in still]
+        parts = [('the states do not chain from the argument circuit to the returned circuit', 'run_chain_links'),
+                 ('an event is rejected by its validator', 'run_events_ok'),
+                 ('the argument or the returned circuit is not well formed / has a rejected operand count',
+                  'run_ends_ok')]
+        why = [[] for _ in still]
+        for text, fn in parts:
+            for j in coqrun.run_cases(prop_id, 'rundiag', RUN_HEADER, terms, fn, 'run_case'):
+                why[j].append(text)
+        for (i, run), w in zip(still, why):
+            rejected.append((i, '; '.join(w) or 'check_run is false'))
+    r.count('whole runs', 'rejected', len(rejected))
+    return accepted, rejected
